@@ -148,7 +148,8 @@ class Spec:
         pass
 
     def global_axioms(self):
-        return []
+        x = z3.Real("x!ax")
+        return [z3.ForAll([x], z3.Implies(x > 1, rlog(x) > 0)), rlog(z3.RealVal(1)) == 0]
 
     def invariant(self, name, c):
         return list(INVARIANTS[name](c))
@@ -169,3 +170,45 @@ class Spec:
 
     def describe_model(self, model, ob):
         return str(model)[:4000]
+
+
+# ---------------------------------------------------------------------------------------------
+# Prefix
+
+
+def pbase(c, p):
+    return c.f(p, "base")
+
+
+def pexp(c, p):
+    return Num.nval(c.f(p, "exponent"))
+
+
+def pkey(base, e):
+    return sort_of(T_PKEY).constructor(0)(base, e)
+
+
+def I_P(c):
+    """Prefix intern table: keys are (base, exponent value) of their values; every
+    initialised prefix is the entry of its key; exponent 0 with base != 0 is never stored."""
+    T = c.g("Prefix._known")
+    k = z3.Const("k!IP", sort_of(T_PKEY))
+    p = z3.Const("p!IP", Ref("Prefix"))
+    ks = sort_of(T_PKEY)
+    k0, k1 = ks.accessor(0, 0), ks.accessor(0, 1)
+    F = lambda r, f: c.fz("Prefix", r, f)
+    yield "I_P.entries", z3.ForAll([k], z3.Implies(
+        z3.Select(T.dom, k),
+        z3.And(c.alivez("Prefix", z3.Select(T.val, k)), F(z3.Select(T.val, k), "_initialized"),
+               F(z3.Select(T.val, k), "base") == k0(k), Num.nval(F(z3.Select(T.val, k), "exponent")) == k1(k))))
+    yield "I_P.canonical", z3.ForAll([p], z3.Implies(
+        z3.And(c.alivez("Prefix", p), F(p, "_initialized")),
+        z3.And(z3.Select(T.dom, pkey(F(p, "base"), Num.nval(F(p, "exponent")))),
+               z3.Select(T.val, pkey(F(p, "base"), Num.nval(F(p, "exponent")))) == p)))
+    yield "I_P.no-zero-exponent", z3.ForAll([p], z3.Implies(
+        z3.And(c.alivez("Prefix", p), F(p, "_initialized"), F(p, "base") != 0), Num.nval(F(p, "exponent")) != 0))
+    yield "I_P.identity", z3.And(c.alive(IdentityPrefix), init(c, IdentityPrefix), pbase(c, IdentityPrefix) == 0,
+                                 pexp(c, IdentityPrefix) == 0)
+
+
+INVARIANTS["I_P"] = I_P
